@@ -37,7 +37,7 @@ TOLERANCES = {
     "unit vector": "1e-12",
 }
 REQUIRED_LABELS = ["beam:flux:clamp", "beam:flux:diverging", "beam:flux:nonuniform", "beam:flux:no-stopping", "beam:flux:nested-nodes",
-                   "beam:flux:4-node-minimum", "beam:flux:neutral-before-ions"]
+                   "beam:flux:4-node-minimum", "beam:flux:neutral-before-ions", "beam:flux:explicit-calculate"]
 
 AMU, E = K.atomic_mass, K.e
 BEAM_ELEMENTS = ["hydrogen", "deuterium", "tritium", "helium"]
@@ -96,7 +96,7 @@ def strategy(draw):
         "bt": [draw(st.floats(-1.0, 1.0)) for _ in range(3)], "br": [draw(st.floats(-180.0, 180.0)) for _ in range(3)],
         "pt": [draw(st.floats(-0.5, 0.5)) for _ in range(3)], "pr": [draw(st.sampled_from([0.0, 0.0, 30.0, -75.0, 90.0])) for _ in range(3)],
         "species": species, "neutral": draw(st.booleans()), "neutral_pos": draw(st.integers(0, 3)),
-        "order": draw(st.sampled_from(["as-drawn", "reversed"])),
+        "order": draw(st.sampled_from(["as-drawn", "reversed"])), "explicit_calc": draw(st.booleans()),
         # beam and/or plasma below an intermediate scene-graph node with its own transform (None = child of the world)
         "bnode": draw(st.one_of(st.none(), st.none(), st.tuples(st.lists(st.floats(-1.0, 1.0), min_size=3, max_size=3),
                                                                  st.lists(st.floats(-180.0, 180.0), min_size=3, max_size=3)))),
@@ -202,6 +202,9 @@ def build(case):
     beam.divergence_y = case["divy"]
     beam.length = case["length"]
     beam.attenuator = SingleRayAttenuator(step=case["step"], clamp_to_zero=case["clamp"], clamp_sigma=case["clamp_sigma"])
+    if case.get("explicit_calc"):
+        # the documented explicit trigger instead of the lazy evaluation on the first density() call
+        beam.attenuator.calculate_attenuation()
     return world, plasma, beam, own
 
 
@@ -311,6 +314,8 @@ def run(case, ctx):
     ctx.label("flux", "flux:clamp" if case["clamp"] else "flux:noclamp")
     if case["neutral"] and stopping and case.get("neutral_pos", 9) % (len(case["species"]) + 1) < len(case["species"]) and case.get("order") != "reversed":
         ctx.label("flux:neutral-before-ions")
+    if case.get("explicit_calc") and diverging:
+        ctx.label("flux:explicit-calculate")
     if case.get("bnode") or case.get("pnode"):
         ctx.label("flux:nested-nodes")
     if 1 + int(math.ceil(L / case["step"])) < 4:
